@@ -5,6 +5,7 @@ import (
 	"flag"
 	"fmt"
 	"os"
+	"path/filepath"
 	"strconv"
 	"strings"
 	"time"
@@ -101,6 +102,14 @@ func runMain(args []string) {
 			}
 		}
 		rep.Monitor = kept
+	}
+	// directories of workers that were killed (timeouts, crashes) are left behind: sweep them
+	if stale, _ := filepath.Glob(filepath.Join(os.TempDir(), "verifh-*")); len(stale) > 0 {
+		for _, d := range stale {
+			if fi, e := os.Stat(d); e == nil && time.Since(fi.ModTime()) > 10*time.Minute {
+				os.RemoveAll(d)
+			}
+		}
 	}
 	b, _ := json.MarshalIndent(rep, "", " ")
 	if *out != "" {
